@@ -84,7 +84,7 @@ func NewRegRun(seed uint64, npool int, overwriteBuiltin ...bool) *RegRun {
 	}
 	// never registered — including names that only differ from a registered one
 	// by case or surrounding white space: the registry is an exact-match map
-	rr.never = []string{rr.prefix + "never", "", "no-such-decoration", "UTF8-Heavy", " none", "ascii-simple\n"}
+	rr.never = []string{rr.prefix + "never", "", "no-such-decoration", "UTF8-Heavy", " none", "ascii-simple\n", "json", "texttable"}
 	rr.subPkgNamed = "html." + rr.prefix + "dark"
 	if len(rr.pool) > 0 {
 		rr.never = append(rr.never, strings.ToUpper(rr.pool[0]), rr.pool[0]+" ")
@@ -243,7 +243,11 @@ func (rr *RegRun) DoReg(task int, st *Step, log *EventLog) *Violation {
 		op.ret = rr.tick()
 	case "setdeco":
 		op.name = rr.nameFor(st.A)
-		if via := pick(4, st.B); via >= 2 && (!strings.Contains(op.name, ".") || rr.registeredNow(op.name)) {
+		via := pick(4, st.B)
+		if via == 2 && (isSubPkg(op.name) || op.name == "texttable") {
+			via = 3 // bare, these words select a renderer; as decoration names they exist only behind "texttable."
+		}
+		if via >= 2 && (!strings.Contains(op.name, ".") || rr.registeredNow(op.name)) {
 			// (a dotted name that is not registered is left to the direct route:
 			// through auto, "X.Y" with only X registered legitimately selects X)
 			// through the auto package, which looks the name up itself and swallows
@@ -264,7 +268,7 @@ func (rr *RegRun) DoReg(task int, st *Step, log *EventLog) *Violation {
 			break
 		}
 		tt := texttable.Wrap(smallTable())
-		if pick(4, st.B) == 1 {
+		if via == 1 {
 			// the wrapper has already rendered successfully once (default decoration)
 			tt.Render()
 			rr.Probes["setdeco_on_a_wrapper_that_rendered_before"]++
@@ -581,6 +585,15 @@ func (rr *RegRun) ProbeC19(registered map[string]int, inflight bool, trailerSeed
 		if err != nil || out == "" {
 			return v("listed-style-fails", "auto.New(%q).Render() returned err=%v", rr.subPkgNamed, err)
 		}
+		// behind the texttable prefix the same string is a decoration name and nothing else
+		if !inflight {
+			pt := auto.New("texttable." + rr.subPkgNamed)
+			fill(pt)
+			pout, perr := pt.Render()
+			if typeName(pt) != "texttable" || perr != nil || !strings.Contains(pout, variantGlyph(registered[rr.subPkgNamed])) {
+				return v("prefixed-name-not-a-decoration", "auto.New(%q) must select the decoration registered under %q (is a %s, err %v): %q", "texttable."+rr.subPkgNamed, rr.subPkgNamed, typeName(pt), perr, firstLine(pout))
+			}
+		}
 		delete(registered, rr.subPkgNamed)
 		defer func() { registered[rr.subPkgNamed] = 0 }()
 	}
@@ -683,7 +696,7 @@ func (rr *RegRun) ProbeC19(registered map[string]int, inflight bool, trailerSeed
 		}
 	}
 	// unknown names fail closed
-	for _, u := range append([]string{"texttable." + rr.prefix + "never", "texttable.", "csvx", "x.csv"}, rr.never...) {
+	for _, u := range append([]string{"texttable." + rr.prefix + "never", "texttable.", "csvx", "x.csv", "texttable.texttable", "texttable.json", "TextTable.csv.x", "texttable.markdown"}, rr.never...) {
 		t := auto.New(u)
 		fill(t)
 		out, err := t.Render()
